@@ -1122,7 +1122,7 @@ pub(crate) fn interpret_isodatetime_offset(
             IsoDateTime::new_unchecked(date, time).as_nanoseconds()
         }
         // 4. If offsetBehaviour is exact, or offsetBehaviour is option and offsetOption is use, then
-        (true, Some(offset)) if offset_option == OffsetDisambiguation::Use => {
+        (_, Some(offset)) if offset_option == OffsetDisambiguation::Use => {
             // a. Let balanced be BalanceISODateTime(isoDate.[[Year]], isoDate.[[Month]],
             // isoDate.[[Day]], time.[[Hour]], time.[[Minute]], time.[[Second]], time.[[Millisecond]],
             // time.[[Microsecond]], time.[[Nanosecond]] - offsetNanoseconds).
